@@ -161,6 +161,32 @@ def _alpha(P, R):
         R.hold("b", "insert updates every existing index with position = facts.len() taken before the push", fn=ins)
     else:
         R.violate("b", "insert:index-maintenance", "insert does not file the new fact in every index at the position it will occupy (all indexes=%s, position=%s, before push=%s, len-before=%s)" % (oki, bool(idx_ok), bool(order_ok), bool(len_before)), ins)
+    # the only condition on filing a fact in a field's index is "the fact has that field" - the same condition under which the
+    # linear scan can match it; any further filter (skipping nulls, empty strings, ...) makes indexed and unindexed answers differ
+    for fn_, pushes in ((ins, ipush), (ci, [c for c in pos if c.bb in ci.normal_blocks()])):
+        for c in pushes:
+            extra = []
+            body = set()
+            for lp in fn_.loops():
+                if c.bb in lp["body"]:
+                    body |= set(lp["body"])
+            for g in A.guards_of(fn_, c.bb):
+                if g["sw"] not in body:
+                    continue        # conditions on the whole operation (index already exists), not on one fact
+                core = strip(g["cond"])
+                if core[0] == "discr":
+                    inner = strip(core[1])
+                    if inner[0] == "call" and (inner[4] == "std::iter::Iterator::next" or inner[1].endswith("TypedFacts::get")):
+                        continue
+                    # `if let Some(index) = self.indexes.get_mut(field)` style lookups of the index itself
+                    if inner[0] == "call" and inner[1].endswith(("HashMap::get_mut", "HashMap::get")) and "indexes" in fmt_sym(inner, maxdepth=5):
+                        continue
+                extra.append("%s = %s" % (fmt_sym(g["cond"], maxdepth=6)[:90], g["polarity"]))
+            if extra:
+                R.violate("b", "index-maintenance-conditional:%s" % fn_.short_name,
+                          "%s files a fact in a field's index only under %s; the unindexed scan matches every fact that has the field, so filter() answers differently once the index exists" % (fn_.short_name, extra), fn_, c.line)
+            else:
+                R.hold("b", "%s: a fact is filed in a field's index whenever it has the field (no further filter)" % fn_.short_name, fn=fn_, line=c.line)
     di = P.one(AMI + "::drop_index")
     if any(c.name.endswith("HashMap::remove") and A.field_of(di.sym_operand(c.args[0]), "indexes", AMI) for c in di.calls()):
         R.hold("b", "drop_index removes the whole index", fn=di)
